@@ -283,12 +283,15 @@ LATER = {
            "with refuted witnesses (authz-response-states-resource-scope, token-response-scope-under-resource-policy).",
     "C06": " Redirect URI LISTS through the real registration endpoint: store_list = mapM store1 (C06_registration_is_a_map, "
            "C06_registration_neighbours_irrelevant, C06_registration_order_irrelevant), whatever is served was matched against "
-           "the stored form of one URI of the list (C06_registered_served_own); Model/RegFlow.v composes C19's verify_one with the matcher.",
+           "the stored form of one URI of the list (C06_registered_served_own); Model/RegFlow.v composes C19's verify_one with the matcher."
+           " split_uri is tied by translation (C06_split_uri_is_source).",
     "C07": " Release points are also judged against history-dependent liveness (tokens dead by rotation + code replay, revocation chains)."
-           " ID Tokens minted by the authorization endpoint per response type as a fifth release point (C07_authz_idt_alone_bound, C07_authz_idt_other_points_irrelevant, C07_authz_idt_userinfo_config_contributes_nothing).",
+           " ID Tokens minted by the authorization endpoint per response type as a fifth release point (C07_authz_idt_alone_bound, C07_authz_idt_other_points_irrelevant, C07_authz_idt_userinfo_config_contributes_nothing)."
+           " Multi-valued user attributes under value / values restrictions, judged value by value at the unit level and at the real release points (Model/ClaimsMV.v: C07_released_value_permitted, C07_released_values_within, C07_partial_match_withheld, C07_multi_valued_withheld).",
     "C08": " ID Token SEQUENCES over several sessions: after any history with fresh begins an ID Token accepted for state s - by "
            "authorization, token or refresh response - carries the nonce sent with s (C08_nonce_history, C08_record_nonce_kept, "
-           "C08_refresh_service) on the repaired RP model (the record's nonce is never replaced; token / refresh compare with it).",
+           "C08_refresh_service) on the repaired RP model (the record's nonce is never replaced; token / refresh compare with it)."
+           " Rounds begun under a RE-USED state through the service API: an ID Token accepted for a state carries the nonce of the LATEST request under it, without any freshness hypothesis (Model/RpReuse.v: C08_nonce_history_reused_states, C08_reuse_invariant).",
     "C09": " Back-channel responses (token, refresh, userinfo, routed) naming another session: the record updated is the one of the "
            "request's state for every response content (C09_backchannel_key, C09_backchannel_recorded, "
            "C09_backchannel_named_state_untouched, C09_refresh_idtoken_bound)."
@@ -296,20 +299,24 @@ LATER = {
     "C11": " Set rules (at most one of / all or none of / X comes with Y) over the FULL presence table of every such rule in the message "
            "classes: has_none_or_one_of transcribed and proved equivalent to count <= 1 for every list, permutation invariant; the CIBA "
            "hint rule's member list regenerated from the source (set_rule_calls in Gen/Schema.v)."
-           " The DECLARED schema, evaluated from the class bodies' source by harness/schema_decl.py into Gen/SchemaDecl.v, equals the run-time schema (C11_declared_no_drift, C11_declared_is_runtime, C11_declared_all_evaluated, C11_all_classes_enforce_declared, C11_declared_tie_discriminates); isolation probes per module; repair c809f1f came out of it.",
+           " The DECLARED schema, evaluated from the class bodies' source by harness/schema_decl.py into Gen/SchemaDecl.v, equals the run-time schema (C11_declared_no_drift, C11_declared_is_runtime, C11_declared_all_evaluated, C11_all_classes_enforce_declared, C11_declared_tie_discriminates); isolation probes per module; repair c809f1f came out of it."
+           " Reserved __verified_<claim> members (forged in any wire form, stale from an earlier verification, or carried as a claim of a signed request object) x raw-claim states: after verification the verified copy is what this verification established (Model/MsgVerified.v, 24 theorems); repairs 834e726, e423b54 came out of it. has_none_or_one_of / __contains__ are tied by translation (C11_has_none_or_one_of_is_source).",
     "C13": " Session look-ups through the session id after a restore, cookies across a restore, API revocations / logout on both twins, "
            "id() census of shared objects: sd_dump / sd_load model with C13_restore_loses_sharing, "
            "C13_restore_equivalent_on_branch_keys, C13_lookup_by_session_id_restored and two refuted statements kept visible."
-           " Removals after a restore, the cstate state machine of the RP store (C13_rp_store_restored, C13_rp_store_restore_anywhere, C13_rp_store_index_live) and an attribute census of every exported class; recorded finding restore-drops-session-manager-config with its refuted witness.",
+           " Removals after a restore, the cstate state machine of the RP store (C13_rp_store_restored, C13_rp_store_restore_anywhere, C13_rp_store_index_live) and an attribute census of every exported class; recorded finding restore-drops-session-manager-config with its refuted witness."
+           " Key families whose converted file names extend each other (dotted, lock-shaped, glob metacharacters, URL-shaped ids), directory contents compared with the model, provider over a file-backed client_db (Model/FileStoreFrame.v: keyed_step_touches_owned, frame_new_instance_related restated as nine C13 theorems).",
     "C15": " The interactive log-in round trip: resume = to_query -> from_query over the real query-string model, extension parameters "
            "survive (C15_resume_extension_parameter_survives), the recorded pair after resume is the request's "
            "(C15_resumed_recorded_is_request_pair), token-endpoint iff over resumed flows; refuted variant for a page written from the "
            "declared parameters only."
-           " Extension parameters and the add-on's pre/post hooks never change the verdict (C15_extras_irrelevant, C15_extras_any_two_agree, C15_extras_essential, C15_extras_resumed_irrelevant).",
+           " Extension parameters and the add-on's pre/post hooks never change the verdict (C15_extras_irrelevant, C15_extras_any_two_agree, C15_extras_essential, C15_extras_resumed_irrelevant)."
+           " Relying-party verifier-store histories (the request built 1-3 times under one state, OAuth2 and OIDC relying parties, which code is redeemed): the token request sends the latest begin's verifier and the provider accepts the pair (Model/PkceRp.v: C15_rp_latest_begin_sent, C15_rp_latest_pair_accepted, C15_rp_latest_pair_verify_code_challenge).",
     "C16": " Algorithms registered through the real registration endpoint: after an accepted registration of an advertised algorithm the "
            "permitted set is exactly that algorithm (C16_registered_exact, C16_registered_only_requested), a non-advertised one is "
            "dropped and the registration response says so (C16_registered_dropped)."
-           " request_param identity from wrapped content follows repair f092826 (C16_request_param_unsigned, C16_request_param_signed); registration steps keep other clients' permitted sets (C16_registration_frame, C16_registration_wf, C16_unregistered_no_effect).",
+           " request_param identity from wrapped content follows repair f092826 (C16_request_param_unsigned, C16_request_param_signed); registration steps keep other clients' permitted sets (C16_registration_frame, C16_registration_wf, C16_unregistered_no_effect)."
+           " Registration HISTORIES under one id (new jwks / jwks_uri / fewer keys / no key material / refused registrations) and request objects under every generation's material on all transports: only the latest accepted registration's material verifies (Model/JarReg.v: C16_history_latest_material, C16_history_superseded_refused, C16_history_alg_in_force).",
     "C17": " Key SOURCE of a handler (given / generated from a draw supply): independently built handlers with library-generated keys "
            "refuse each other's cookies in every mode (C17_foreign_keys_refused, C17_independent_handlers_refuse under the explicit "
            "hypothesis draws_distinct, tied to the code by chk_fresh on observed key material)."
@@ -318,7 +325,12 @@ LATER = {
            "C18_same_configuration_same_subs_on_every_instance)."
            " The content of the authorization request never contributes to the sub (C18_request_irrelevant and its variants per subject type / minter, C18_request_members_irrelevant, C18_request_pairwise_iff_registered_sector); model follows repair c7c9b10.",
     "C19": " The real random supply (secret(), random_client_id, registration tokens) is exercised with the clock standing still; custom "
-           "scheme redirect URIs are stored as base + query (model follows repair d77dc7b).",
+           "scheme redirect URIs are stored as base + query (model follows repair d77dc7b)."
+           " split_uri is tied by translation (C19_split_uri_is_source).",
+    "C10": " Histories of round trips in one process (instances edited in place between readings, the same text read again by the same / another class, id() census of shared mutable values): reading is a function of the wire text alone (Model/MsgHistory.v: C10_reading_history_independent, C10_edit_stays_in_its_instance); repair b4426c2 came out of it.",
+    "C12": " Sequences of flows of differently configured clients on ONE provider instance, five expiry views per access / refresh token against the configured lifetime (Model/InteropLifetime.v: C12_lifetime_views_agree, C12_lifetime_history_independent, C12_lifetime_precedence).",
+    "C14": " lv_unpack tied by translation (C14_lv_unpack_is_source, fuel never exhausted); creation through the six SessionManager entry points with identifier families of normalisation-equivalent spellings (Model/DbCreate.v: C14_make_path_is_verbatim, C14_created_sid_resolves, C14_creation_leaves_other_pairs, C14_normalising_creation_refuted).",
+    "C20": " Attribute census of everything reachable from the Server around every request with an explicit, justified list of request-state containers; order experiments against a fresh provider with JWT tokens and clients of differing lifetimes; py2alias covers 63 functions including the token handlers (C20_generated_token_handlers_covered, C20_history_order_independent, C20_root_store_rejected; Model/AliasHist.v).",
 }
 
 
